@@ -392,6 +392,21 @@ def resolve_unwindset(spec, goto, workdir):
         rx, n = part.rsplit("=", 1)
         rules.append((re.compile(rx), int(n)))
     sets, table = [], []
+    rec_rules = [(rx, n) for rx, n in rules if rx.pattern.startswith("rec:")]
+    rules = [(rx, n) for rx, n in rules if not rx.pattern.startswith("rec:")]
+    if rec_rules:
+        # recursion bounds: unwindset entries keyed by the (mangled) function identifier
+        rc, text = run(["goto-instrument", "--list-goto-functions", goto], timeout=600, mem_gb=16)
+        for line in text.splitlines():
+            m = re.match(r"^(.*) /\* (\S+?),? ?(body not available)? ?\*/$", line.strip())
+            if not m or m.group(3):
+                continue
+            pretty, mangled = m.group(1), m.group(2).rstrip(",")
+            for rx, n in rec_rules:
+                if re.search(rx.pattern[4:], pretty) and re.match(rx.pattern[4:].split("::")[0] if False else r".*", pretty):
+                    if re.fullmatch(r"(?:.*::)?" + rx.pattern[4:] + r"(?:::<.*>)?", pretty):
+                        sets.append(f"{mangled}:{n}")
+                        table.append({"recursion": pretty, "bound": n})
     for lp in loops:
         fnname = lp.get("sourceLocation", {}).get("function", "")
         for rx, n in rules:
@@ -509,7 +524,13 @@ def parse_cbmc_text(path, res):
             continue
         entry = {"property": pid, "class": cls, "description": desc, "file": cur_file, "line": m.group("line"),
                  "function": cur_fn, "status": st}
-        if cls in INCONCLUSIVE_CLASSES or cls == "nobody" or st != "FAILURE":
+        in_machinery = (cur_file or "").startswith("src/verif_") or (cur_fn or "").startswith(("verif_ref::", "verif_io::", "verif_model::", "<verif_"))
+        harness_arith = ("::verif_h::" in (cur_fn or "")) and ("overflow" in desc or "index out of bounds" in desc or "divide by zero" in desc)
+        if in_machinery:
+            entry["class"] = "machinery"
+        if cls in INCONCLUSIVE_CLASSES or cls == "nobody" or st != "FAILURE" or in_machinery or harness_arith:
+            # a failing obligation inside /verif's own reference code, streams or container model (or harness
+            # arithmetic) is a defect or bound of the machinery, never a finding about the crate
             inconc.append(entry)
         else:
             failed.append(entry)
@@ -553,6 +574,10 @@ def run_harness(spec, symtabs, workdir, want_witness=False):
             res.reason = f"cap of {spec.cap}s hit"
             return res
         parsed = parse_cbmc_text(outp, res)
+        if "ran out of memory" in (err or "") or "bad_alloc" in (err or ""):
+            res.status = "inconclusive"
+            res.reason = f"solver/symex out of memory (limit {spec.mem} GB)"
+            return res
         if parsed is None:
             if not res.reason:
                 res.reason = f"cbmc rc={rc}"
@@ -563,7 +588,7 @@ def run_harness(spec, symtabs, workdir, want_witness=False):
         res.failed = failed
         if inconc:
             res.status = "inconclusive"
-            res.reason = "bound too small: " + "; ".join(f"{e['property']}" for e in inconc[:4])
+            res.reason = "bound too small or machinery obligation failed: " + "; ".join(f"{e['property']} ({e['description'][:60]})" for e in inconc[:4])
             res.failed = failed + inconc
             if not failed:
                 return res
